@@ -13,14 +13,23 @@ Proof.
   split; [apply (css_scan_cut _ rest); assumption|]. split; assumption.
 Qed.
 
-(* the token types whose shape is characterised here; the others (names, dimensions, strings, urls) are not *)
+(* the token types whose shape is characterised here; the others (names, dimensions, urls) are not *)
 Definition shaped (ty : ttype) : bool :=
   match ty with
-  | TWhitespace | TComment | TDelim | TNumber | TPercentage | TUnicodeRange
+  | TWhitespace | TComment | TDelim | TNumber | TPercentage | TUnicodeRange | TString | TBadString
   | TColon | TSemicolon | TComma | TLeftParenthesis | TRightParenthesis | TLeftBracket | TRightBracket | TLeftBrace | TRightBrace
   | TIncludeMatch | TDashMatch | TPrefixMatch | TSuffixMatch | TSubstringMatch | TColumn | TCDO | TCDC => true
   | _ => false
   end.
+
+Definition str_shape (b : list Z) : Prop :=
+  exists q body, is_quote q /\
+    ((b = q :: body ++ [q] /\ sbody q body [q]) \/
+     (exists bs, b = q :: body ++ bs /\ sbody q body bs /\ (bs = [] \/ bs = [92]))).
+Definition badstr_shape (b : list Z) : Prop :=
+  exists q body nl, is_quote q /\ b = q :: body ++ [nl] /\ sbody q body [nl] /\ is_nl nl = true.
+Definition string_shape (ty : ttype) (b : list Z) : Prop :=
+  match ty with TString => str_shape b | TBadString => badstr_shape b | _ => False end.
 
 Definition ur_shape (t : list Z) : Prop :=
   (exists u h q, t = u :: 43 :: h ++ q /\ (u = 117 \/ u = 85) /\ all_b is_hex h /\ all_b is_qmark q /\ 1 <= len h + len q <= 6) \/
@@ -36,6 +45,8 @@ Definition tok_shape (ty : ttype) (b : list Z) : Prop :=
   | TNumber => num_text b
   | TPercentage => exists t, b = t ++ [37] /\ num_text t
   | TUnicodeRange => ur_shape b
+  | TString => str_shape b
+  | TBadString => badstr_shape b
   | _ => if shaped ty then In (ty, b) fixed_tokens else True
   end.
 
@@ -79,9 +90,6 @@ Qed.
 
 Lemma pos_tok_free t n : shaped t = false -> free_or_delim (fst (pos_tok t n)) (snd (pos_tok t n)).
 Proof. intros H. unfold pos_tok. destruct (0 <? n); cbn [fst snd]; [left; exact H|right; split; reflexivity]. Qed.
-
-Lemma string_free l r : consume_string l = Some r -> is_err (fst r) = true \/ shaped (fst r) = false.
-Proof. destruct r as [t n]. intros H. destruct (consume_string_ty _ _ _ H) as [->| ->]; cbn; auto. Qed.
 
 Lemma identlike_free l r : consume_identlike l = Some r -> is_err (fst r) = true \/ shaped (fst r) = false.
 Proof. destruct r as [t n]. intros H. destruct (consume_identlike_ty _ _ _ H) as [(-> & _)|[->|[->|[->| ->]]]]; cbn; auto. Qed.
@@ -238,6 +246,221 @@ Proof.
     split; [rewrite !len_cons, len_app; lia|]. left. exists x, h, q. repeat split; try assumption; lia.
 Qed.
 
+(* --- escapes --------------------------------------------------------------------------------------------------- *)
+Lemma hex_upto_inv : forall n d k, hex_upto n (d ++ [0]) = Some k ->
+  exists a r, d = a ++ r /\ len a = k /\ all_b is_hex a /\ k <= Z.of_nat n /\ (k < Z.of_nat n -> is_hex (hd0 r) = false).
+Proof.
+  induction n as [|n IH]; intros d k H.
+  - cbn [hex_upto] in H. apply Some_inj in H. subst k. exists [], d. repeat split; try constructor; try lia.
+  - cbn [hex_upto] in H. unfold consume_hexdigit in H. rewrite peekz_sent_0 in H. cbn [option_bind] in H.
+    destruct (is_hex (hd0 d)) eqn:Eh.
+    + destruct d as [|c d']; [discriminate Eh|]. cbn [hd0] in Eh. cbn [Z.ltb Z.compare app tl] in H.
+      apply bump_some in H. destruct H as (m & Hm & ->). destruct (IH _ _ Hm) as (a & r & -> & Hl & Ha & Hk & Hr).
+      exists (c :: a), r. split; [reflexivity|]. split; [rewrite len_cons; lia|]. split; [constructor; assumption|].
+      split; [lia|]. intros Hlt. apply Hr. lia.
+    + cbn [Z.ltb Z.compare] in H. apply Some_inj in H. subst k. exists [], d. repeat split; try constructor; try lia.
+Qed.
+
+Lemma escape_ws_inv r w : escape_ws (r ++ [0]) = Some w ->
+  (w = 0 /\ is_ws (hd0 r) = false) \/
+  (w = 1 /\ exists x r', r = x :: r' /\ is_ws x = true /\ x <> 13) \/
+  (w = 2 /\ exists r', r = 13 :: 10 :: r') \/
+  (w = 1 /\ exists r', r = 13 :: r' /\ hd0 r' <> 10).
+Proof.
+  unfold escape_ws, consume_newline, consume_whitespace. rewrite !peekz_sent_0. cbn [option_bind]. intros H.
+  destruct r as [|x r']; cbn [hd0 app] in H.
+  - cbn in H. apply Some_inj in H. left. split; [lia|reflexivity].
+  - destruct ((x =? 10) || (x =? 12)) eqn:Enl.
+    + cbn [option_bind Z.ltb Z.compare] in H. apply Some_inj in H. right. left. split; [lia|]. exists x, r'. split; [reflexivity|]. cls. lia.
+    + destruct (x =? 13) eqn:E13.
+      * rewrite peekz_1, peekz_sent_0 in H. cbn [option_bind] in H. assert (x = 13) by lia. subst x.
+        destruct (hd0 r' =? 10) eqn:E10; cbn [option_bind Z.ltb Z.compare] in H; apply Some_inj in H.
+        -- right. right. left. split; [lia|]. destruct (hd0_is r' 10) as (r2 & ->); [lia|lia|]. eauto.
+        -- right. right. right. split; [lia|]. exists r'. split; [reflexivity|lia].
+      * cbn [option_bind Z.ltb Z.compare hd0] in H. apply Some_inj in H. destruct (is_ws x) eqn:Ew.
+        -- right. left. split; [lia|]. exists x, r'. split; [reflexivity|]. split; [exact Ew|lia].
+        -- left. split; [lia|exact Ew].
+Qed.
+
+Lemma split_at (d : list Z) k : 0 <= k <= len d -> exists a r, d = a ++ r /\ len a = k.
+Proof. intros H. exists (firstz k d), (skipz k d). split; [symmetry; apply firstz_skipz|apply len_firstz; exact H]. Qed.
+
+Lemma escape_inv d n : consume_escape (d ++ [0]) = Some n -> 0 < n ->
+  exists e r nb, d = e ++ r /\ len e = n /\ esc_text e nb /\ nb r = true.
+Proof.
+  unfold consume_escape. rewrite peekz_sent_0. cbn [option_bind]. intros H Hn.
+  destruct (negb (hd0 d =? 92)) eqn:E92; [apply Some_inj in H; lia|]. apply negb_false_iff in E92.
+  destruct (hd0_is d 92) as (d1 & ->); [lia|lia|]. cbn [app tl] in H.
+  unfold consume_newline, consume_hexdigit in H. rewrite !peekz_sent_0 in H. cbn [option_bind] in H.
+  assert (Hnl : is_nl (hd0 d1) = false).
+  { destruct ((hd0 d1 =? 10) || (hd0 d1 =? 12)) eqn:E1; [cbn in H; apply Some_inj in H; lia|].
+    destruct (hd0 d1 =? 13) eqn:E2; [|cls; lia].
+    destruct (peekz (d1 ++ [0]) 1); cbn [option_bind] in H; [|discriminate]. destruct (z =? 10); cbn in H; apply Some_inj in H; lia. }
+  replace ((hd0 d1 =? 10) || (hd0 d1 =? 12)) with false in H by (revert Hnl; cls; lia).
+  replace (hd0 d1 =? 13) with false in H by (revert Hnl; cls; lia).
+  cbn [option_bind Z.ltb Z.compare] in H.
+  destruct (is_hex (hd0 d1)) eqn:Eh.
+  - destruct d1 as [|c1 d2]; [discriminate Eh|]. cbn [hd0] in *. cbn [Z.ltb Z.compare app tl] in H.
+    bind_inv H. bind_inv H. apply Some_inj in H.
+    destruct (hex_upto_inv _ _ _ E) as (a & r2 & -> & Hla & Ha & Hk & Hr2). change (Z.of_nat 5) with 5 in *.
+    assert (Hsk : skipz x (a ++ r2 ++ [0]) = r2 ++ [0]) by (rewrite <- Hla; apply skipz_len_app).
+    rewrite <- app_assoc, Hsk in E0. pose proof (len_nonneg a).
+    assert (Hh : all_b is_hex (c1 :: a)) by (constructor; assumption).
+    assert (Hlh : len (c1 :: a) = 1 + x) by (rewrite len_cons; lia).
+    destruct (escape_ws_inv _ _ E0) as [(-> & Hw)|[(-> & w & r3 & -> & Hw & H13)|[(-> & r3 & ->)|(-> & r3 & -> & H10)]]].
+    + destruct (x =? 5) eqn:E5.
+      * exists (92 :: c1 :: a), r2, not_ws_next. split; [reflexivity|]. split; [rewrite len_cons; lia|].
+        split; [apply Esc_hex6; [exact Hh|lia]|]. unfold not_ws_next. rewrite Hw. reflexivity.
+      * exists (92 :: c1 :: a), r2, not_hex_ws_next. split; [reflexivity|]. split; [rewrite len_cons; lia|].
+        split; [apply Esc_hex; [exact Hh|lia]|]. unfold not_hex_ws_next. rewrite Hw, Hr2 by lia. reflexivity.
+    + exists (92 :: (c1 :: a) ++ [w]), r3, any_next. split; [cbn [app]; rewrite <- app_assoc; reflexivity|].
+      split; [rewrite len_cons, len_app; change (len [w]) with 1; lia|]. split; [apply Esc_hex_ws; [exact Hh|lia|exact Hw|exact H13]|reflexivity].
+    + exists (92 :: (c1 :: a) ++ [13; 10]), r3, any_next. split; [cbn [app]; rewrite <- app_assoc; reflexivity|].
+      split; [rewrite len_cons, len_app; change (len [13; 10]) with 2; lia|]. split; [apply Esc_hex_crlf; [exact Hh|lia]|reflexivity].
+    + exists (92 :: (c1 :: a) ++ [13]), r3, not_lf_next. split; [cbn [app]; rewrite <- app_assoc; reflexivity|].
+      split; [rewrite len_cons, len_app; change (len [13]) with 1; lia|]. split; [apply Esc_hex_cr; [exact Hh|lia]|].
+      unfold not_lf_next. apply negb_true_iff. lia.
+  - cbn [Z.ltb Z.compare] in H. destruct (192 <=? hd0 d1) eqn:E192.
+    + destruct d1 as [|c1 d2]; [discriminate E192|]. cbn [hd0] in *. bind_inv H. apply Some_inj in H.
+      unfold rune_len in E. cbn [app] in E. rewrite peekz_0 in E. cbn [option_bind] in E.
+      rewrite len_cons, len_app in E. change (len [0]) with 1 in E. pose proof (len_nonneg d2).
+      replace (c1 <? 192) with false in E by lia. cbn [orb] in E.
+      assert (Hcut : forall k, len d2 = k -> k < rune_need c1 - 1 -> n = 2 + k ->
+                exists e r nb, 92 :: c1 :: d2 = e ++ r /\ len e = n /\ esc_text e nb /\ nb r = true).
+      { intros k Hk Hlt Hnk. exists (92 :: c1 :: d2), [], at_end. split; [rewrite app_nil_r; reflexivity|].
+        split; [rewrite !len_cons; lia|]. split; [apply Esc_rune_cut; lia|reflexivity]. }
+      assert (Hfull : forall k, k <= len d2 -> k = rune_need c1 - 1 -> n = 2 + k ->
+                exists e r nb, 92 :: c1 :: d2 = e ++ r /\ len e = n /\ esc_text e nb /\ nb r = true).
+      { intros k Hk Hlt Hnk. destruct (split_at d2 k) as (cont & r & -> & Hlc); [unfold rune_need in Hlt; destruct (c1 <? 224), (c1 <? 240); lia|].
+        exists (92 :: c1 :: cont), r, any_next. split; [reflexivity|].
+        split; [rewrite !len_cons; lia|]. split; [apply Esc_rune; lia|reflexivity]. }
+      unfold rune_need in Hcut, Hfull. replace (1 + (len d2 + 1) - 1) with (len d2 + 1) in E by lia.
+      destruct (len d2 + 1 <? 2) eqn:R2.
+      { apply Some_inj in E. subst x. apply (Hcut 0); [lia| |lia]. destruct (c1 <? 224), (c1 <? 240); lia. }
+      destruct ((c1 <? 224) || (len d2 + 1 <? 3)) eqn:R3.
+      { inv_all E. apply Some_inj in E. subst x. destruct (c1 <? 224) eqn:C2.
+        - apply (Hfull 1); lia.
+        - apply (Hcut 1); [lia| |lia]. destruct (c1 <? 240); lia. }
+      destruct ((c1 <? 240) || (len d2 + 1 <? 4)) eqn:R4.
+      { inv_all E. apply Some_inj in E. subst x. destruct (c1 <? 224) eqn:C2; [lia|]. destruct (c1 <? 240) eqn:C3.
+        - apply (Hfull 2); lia.
+        - apply (Hcut 2); lia. }
+      inv_all E. apply Some_inj in E. subst x. destruct (c1 <? 224) eqn:C2; [lia|]. destruct (c1 <? 240) eqn:C3; [lia|].
+      apply (Hfull 3); lia.
+    + destruct d1 as [|c1 d2].
+      * cbn in H. apply Some_inj in H. lia.
+      * cbn [hd0 app] in *. rewrite eofb_cons_sent, andb_false_r in H. apply Some_inj in H. subst n.
+        exists [92; c1], d2, any_next. split; [reflexivity|]. split; [reflexivity|]. split; [apply Esc_char; [exact Eh|exact Hnl|lia]|reflexivity].
+Qed.
+
+(* --- strings ------------------------------------------------------------------------------------------------- *)
+Lemma newline_inv r nl : consume_newline (r ++ [0]) = Some nl ->
+  (nl = 0 /\ is_nl (hd0 r) = false) \/ (0 < nl /\ exists nlb y, r = nlb ++ y /\ len nlb = nl /\ line_break nlb y).
+Proof.
+  unfold consume_newline. rewrite peekz_sent_0. cbn [option_bind]. intros H.
+  destruct ((hd0 r =? 10) || (hd0 r =? 12)) eqn:E1.
+  - apply Some_inj in H. subst nl. right. split; [lia|]. destruct r as [|c r']; [discriminate E1|]. cbn [hd0] in E1.
+    exists [c], r'. split; [reflexivity|]. split; [reflexivity|]. unfold line_break.
+    destruct (c =? 10) eqn:E; [left; f_equal; lia|right; left; f_equal; lia].
+  - destruct (hd0 r =? 13) eqn:E2.
+    + destruct (hd0_is r 13) as (r' & ->); [lia|lia|]. cbn [app] in H. rewrite peekz_1, peekz_sent_0 in H. cbn [option_bind] in H.
+      apply Some_inj in H. right. destruct (hd0 r' =? 10) eqn:E3.
+      * destruct (hd0_is r' 10) as (r2 & ->); [lia|lia|]. split; [lia|]. exists [13; 10], r2. split; [reflexivity|]. split; [subst nl; reflexivity|].
+        right. right. left. reflexivity.
+      * split; [lia|]. exists [13], r'. split; [reflexivity|]. split; [subst nl; reflexivity|]. right. right. right. split; [reflexivity|lia].
+    + apply Some_inj in H. left. split; [lia|]. cls. lia.
+Qed.
+
+Lemma escape_zero_inv t e : consume_escape (92 :: t ++ [0]) = Some e -> e <= 0 -> t = [] \/ is_nl (hd0 t) = true.
+Proof.
+  intros H He. destruct t as [|c t']; [auto|]. right. cbn [hd0]. destruct (is_nl c) eqn:Enl; [reflexivity|]. exfalso.
+  revert H. unfold consume_escape. rewrite peekz_0. cbn [option_bind negb Z.eqb Pos.eqb tl app].
+  unfold consume_newline, consume_hexdigit. rewrite !peekz_0. cbn [option_bind].
+  replace ((c =? 10) || (c =? 12)) with false by (revert Enl; cls; lia).
+  replace (c =? 13) with false by (revert Enl; cls; lia). cbn [option_bind Z.ltb Z.compare].
+  destruct (is_hex c) eqn:Eh.
+  - cbn [Z.ltb Z.compare tl]. intros H. bind_inv H. bind_inv H. apply Some_inj in H.
+    destruct (hex_upto_inv _ _ _ E) as (a & r2 & _ & Hla & _). pose proof (len_nonneg a).
+    pose proof (escape_ws_range _ _ E0). lia.
+  - cbn [Z.ltb Z.compare]. destruct (192 <=? c) eqn:E192.
+    + intros H. bind_inv H. apply Some_inj in H. destruct (rune_len_ok c t') as (m & Hm & Hm1 & _). cbn [app] in Hm. rewrite E in Hm.
+      apply Some_inj in Hm. lia.
+    + rewrite eofb_cons_sent, andb_false_r. intros H. apply Some_inj in H. lia.
+Qed.
+
+Definition str_end (q : Z) (ty : ttype) (rest : list Z) (extra : Z) : Prop :=
+  (ty = TString /\ extra = 0 /\ rest = []) \/
+  (ty = TBadString /\ extra = 1 /\ exists nl r, rest = nl :: r /\ is_nl nl = true) \/
+  (ty = TString /\ extra = 1 /\ exists r, rest = q :: r) \/
+  (ty = TString /\ extra = 1 /\ rest = [92]).
+
+Lemma string_loop_inv q : forall m d ty n, (length d <= m)%nat -> string_loop q (d ++ [0]) 0 = Some (ty, n) ->
+  exists body rest extra, d = body ++ rest /\ sbody q body rest /\ n = len body + extra /\ str_end q ty rest extra.
+Proof.
+  induction m as [|m IH]; intros d ty n Hlen H.
+  - destruct d as [|c t]; [|cbn [length] in Hlen; lia]. cbn in H. apply Some_pair_inj in H. destruct H as [<- <-].
+    exists [], [], 0. split; [reflexivity|]. split; [constructor|]. split; [reflexivity|left; auto].
+  - destruct d as [|c t].
+    { cbn in H. apply Some_pair_inj in H. destruct H as [<- <-].
+      exists [], [], 0. split; [reflexivity|]. split; [constructor|]. split; [reflexivity|left; auto]. }
+    cbn [length] in Hlen. cbn [app] in H. rewrite string_loop_0, eofb_cons_sent, andb_false_r in H.
+    assert (Hstep : forall pre y ty' n', c :: t = pre ++ y -> (length y <= m)%nat ->
+              string_loop q (y ++ [0]) 0 = Some (ty', n') ->
+              (forall body' rest, y = body' ++ rest -> sbody q body' rest -> sbody q (pre ++ body') rest) ->
+              exists body rest extra, c :: t = body ++ rest /\ sbody q body rest /\ len pre + n' = len body + extra /\ str_end q ty' rest extra).
+    { intros pre y ty' n' Hd Hy Hl Hsb. destruct (IH _ _ _ Hy Hl) as (body' & rest & extra & Hyb & Hb & Hn & He).
+      exists (pre ++ body'), rest, extra. split; [rewrite Hd, Hyb, app_assoc; reflexivity|]. split; [apply Hsb; assumption|].
+      split; [rewrite len_app; lia|exact He]. }
+    destruct (is_nl c) eqn:Enl.
+    { apply Some_pair_inj in H. destruct H as [<- <-]. exists [], (c :: t), 1. split; [reflexivity|]. split; [constructor|].
+      split; [reflexivity|]. right. left. eauto 6. }
+    destruct (c =? q) eqn:Eq.
+    { apply Some_pair_inj in H. destruct H as [<- <-]. exists [], (c :: t), 1. split; [reflexivity|]. split; [constructor|].
+      split; [reflexivity|]. right. right. left. assert (c = q) by lia. subst c. eauto 6. }
+    destruct (c =? 92) eqn:E92.
+    + assert (c = 92) by lia. subst c. bind_inv H. destruct (0 <? x) eqn:Ex.
+      * change (92 :: t ++ [0]) with ((92 :: t) ++ [0]) in E.
+        destruct (escape_inv _ _ E) as (eb & r & nb & Hd & Hle & Heb & Hnb); [lia|].
+        destruct (esc_text_bs _ _ Heb) as (e' & -> & He'). cbn [app] in Hd. injection Hd as ->.
+        rewrite len_cons in Hle. replace (Z.to_nat (x - 1)) with (length e') in H by (unfold len in Hle; lia).
+        rewrite <- app_assoc, string_loop_skipn in H.
+        destruct (string_loop q (r ++ [0]) 0) as [[ty' n']|] eqn:El; [|discriminate H]. cbn [shift2 bump2] in H.
+        apply Some_pair_inj in H. destruct H as [<- <-].
+        destruct (Hstep (92 :: e') r ty' n') as (body & rest & extra & Hd & Hb & Hn & He); [reflexivity|rewrite app_length in Hlen; lia|exact El| |].
+        { intros body' rest -> Hb. apply (SB_esc q _ nb); assumption. }
+        exists body, rest, extra. split; [exact Hd|]. split; [exact Hb|]. split; [rewrite len_cons in Hn; lia|exact He].
+      * bind_inv H. destruct (newline_inv _ _ E0) as [(-> & Hnl)|(Hpos & nlb & y & -> & Hlnl & Hlb)].
+        -- destruct (escape_zero_inv _ _ E) as [-> |Hc]; [lia| |congruence].
+           cbn in H. apply Some_pair_inj in H. destruct H as [<- <-].
+           exists [], [92], 1. split; [reflexivity|]. split; [constructor|]. split; [reflexivity|]. right. right. right. auto.
+        -- replace (Z.to_nat x0) with (length nlb) in H by (unfold len in Hlnl; lia).
+           rewrite <- app_assoc, string_loop_skipn in H.
+           destruct (string_loop q (y ++ [0]) 0) as [[ty' n']|] eqn:El; [|discriminate H]. cbn [shift2 bump2] in H.
+           apply Some_pair_inj in H. destruct H as [<- <-].
+           destruct (Hstep (92 :: nlb) y ty' n') as (body & rest & extra & Hd & Hb & Hn & He); [reflexivity|rewrite app_length in Hlen; lia|exact El| |].
+           { intros body' rest -> Hb. apply SB_cont; assumption. }
+           exists body, rest, extra. split; [exact Hd|]. split; [exact Hb|]. split; [rewrite len_cons in Hn; lia|exact He].
+    + destruct (string_loop q (t ++ [0]) 0) as [[ty' n']|] eqn:El; [|discriminate H]. cbn [bump2] in H.
+      apply Some_pair_inj in H. destruct H as [<- <-].
+      destruct (Hstep [c] t ty' n') as (body & rest & extra & Hd & Hb & Hn & He); [reflexivity|lia|exact El| |].
+      { intros body' rest -> Hb. cbn [app]. apply SB_char; [|exact Hb]. unfold str_byte. rewrite Eq, E92, Enl. reflexivity. }
+      exists body, rest, extra. split; [exact Hd|]. split; [exact Hb|]. split; [change (len [c]) with 1 in Hn; lia|exact He].
+Qed.
+
+Lemma string_inv q d ty : is_quote q -> consume_string ((q :: d) ++ [0]) = Some (ty, len (q :: d)) -> string_shape ty (q :: d).
+Proof.
+  intros Hq H. unfold consume_string in H. cbn [app] in H. rewrite peekz_0 in H. cbn [option_bind tl] in H.
+  destruct (string_loop q (d ++ [0]) 0) as [[ty' n']|] eqn:El; [|discriminate H]. cbn [bump2] in H.
+  apply Some_pair_inj in H. destruct H as [<- Hn]. rewrite len_cons in Hn.
+  destruct (string_loop_inv q _ d _ _ (le_n _) El) as (body & rest & extra & -> & Hb & Hn' & He).
+  rewrite len_app in Hn. assert (Hlr : len rest = extra) by lia.
+  destruct He as [(-> & -> & ->)|[(-> & -> & nl & r & -> & Hnl)|[(-> & -> & r & ->)|(-> & -> & ->)]]]; cbn [string_shape].
+  - exists q, body. split; [exact Hq|]. right. exists []. auto.
+  - nil_of r Hlr. exists q, body, nl. auto.
+  - nil_of r Hlr. exists q, body. split; [exact Hq|]. left. auto.
+  - exists q, body. split; [exact Hq|]. right. exists [92]. auto.
+Qed.
+
 Lemma numeric_case b x ty : consume_numeric (b ++ [0]) = Some x -> Some (or_delim x) = Some (ty, len b) ->
   b <> [] -> shaped ty = true -> tok_shape ty b.
 Proof.
@@ -274,7 +497,10 @@ Proof.
   { bind_inv H. free_case H. apply pos_tok_free. reflexivity. }
   (* strings *)
   destruct ((c =? 34) || (c =? 39)) eqn:Eq.
-  { bind_inv H. free_case H. apply or_delim_free, (string_free _ _ E). }
+  { bind_inv H. assert (Hq : is_quote c) by (unfold is_quote; lia). destruct x as [t n].
+    destruct (consume_string_ty _ _ _ E) as [-> | ->]; unfold or_delim in H; cbn [fst is_err] in H; res H Hn; subst n.
+    - exact (string_inv c b' TString Hq E).
+    - exact (string_inv c b' TBadString Hq E). }
   (* '.' and '+' *)
   destruct ((c =? 46) || (c =? 43)) eqn:Edp.
   { bind_inv H. apply (numeric_case (c :: b') x ty E H Hne Hs). }
